@@ -21,7 +21,7 @@
 (* Then up to MaxMut ADVERSARY steps are taken, each a named action (so     *)
 (* coverage is measurable):                                                 *)
 (*   FlipByte  Truncate  SpliceToken  SetNumber  SetHex  NestDeep           *)
-(*   MakeCycle  DropKeyword  SwapEntry                                      *)
+(*   MakeCycle  DropKeyword  SwapEntry  RepeatToken  PadTail                *)
 (* the result is emitted (EmitCase, a single-successor step), the input is  *)
 (* reset to the legal one and the next round starts (Rounds rounds per      *)
 (* behaviour; round 0 emits the legal input itself).                        *)
@@ -185,7 +185,8 @@ PairsToMap(d) == [key \in {d[i][1] : i \in 1..Len(d)} |-> d[CHOOSE i \in 1..Len(
 -----------------------------------------------------------------------------
 (* The mutation grammar *)
 
-Kinds == {"FlipByte", "Truncate", "SpliceToken", "SetNumber", "SetHex", "NestDeep", "MakeCycle", "DropKeyword", "SwapEntry"}
+Kinds == {"FlipByte", "Truncate", "SpliceToken", "SetNumber", "SetHex", "NestDeep", "MakeCycle", "DropKeyword", "SwapEntry",
+          "RepeatToken", "PadTail"}
 
 D(ds) == [i \in 1..Len(ds) |-> 48 + ds[i]]
 \* -1, 0, 1, 2^31-1, 2^32, 2^63-1, 10^18, 2^64-1 as digit strings
@@ -418,6 +419,48 @@ MakeCycle ==
                       /\ adict' = adict /\ Done1(MEntry("MakeCycle", NameLength, 1, na \o <<32>> \o nb, kind))
           ELSE Noop("MakeCycle")
 
+\* Repetition: n copies of a grammar token or marker line at a structural position (before the header, after an object,
+\* before the cross-reference section, before startxref, after a %%EOF marker, at the very end), and padding of the
+\* tail.  What lopdf does once per occurrence of a marker (search_substring recurses once per %%EOF) or once per byte of
+\* the tail window must stay bounded however often the marker occurs.  TLC writes 3 copies and records the unit and the
+\* count n; the harness writes n copies (as for NestDeep the multiplied input is not re-read by the StrictReader).
+LF(t) == t \o <<10>>
+MarkerToks == { LF(PctPctEOF), KwStartxref \o <<10, 48, 10>>, LF(KwXref), LF(KwTrailer), LF(KwEndobj), LF(KwStream), LF(KwObj),
+                LF(PctPDF \o <<49, 46, 52>>), <<40>>, <<60, 60>>, <<49, 32, 48, 32, 82, 32>> }
+RepeatCounts == {100, 10000, 300000}
+PadCounts == {513, 5000, 1000000}
+PadBytes == {32, 0, 10, 37}
+ModelCopies == 3
+
+StructPositions ==
+    {1, Len(out) + 1}
+    \cup (IF ep = "file"
+          THEN {i + 7 : i \in {j \in AllOcc(out, KwEndobj) : j + 7 <= Len(out) + 1}} \cup AllOcc(out, KwXref) \cup AllOcc(out, KwStartxref)
+               \cup {i + 5 : i \in AllOcc(out, PctPctEOF)}
+          ELSE IF out = <<>> THEN {} ELSE {RandomElement(1..Len(out))})
+
+RepSite(p, len, ulen, n) == [form |-> "rep", s |-> p, e |-> p + len - 1, name |-> NmNone, idx |-> 0, x |-> <<ulen, n>>]
+
+RepeatToken ==
+    /\ Applying("RepeatToken")
+    /\ \E t \in {RandomElement(IF ep = "file" THEN MarkerToks ELSE ToksOf(seed))} : \E n \in {RandomElement(RepeatCounts)} :
+       \E p \in {RandomElement(StructPositions)} :
+          LET new == Rep(t, ModelCopies) IN
+          /\ out' = Splice(out, p, p - 1, new)
+          /\ sites' = Append(ShiftSites(sites, p, p - 1, Len(new), 0), RepSite(p, Len(new), Len(t), n))
+          /\ adict' = adict
+          /\ Done1(MEntry("RepeatToken", NmNone, n, t, ""))
+
+PadTail ==
+    /\ Applying("PadTail")
+    /\ \E b \in {RandomElement(PadBytes)} : \E n \in {RandomElement(PadCounts)} :
+          LET new == Rep(<<b>>, ModelCopies)
+              p == Len(out) + 1
+          IN /\ out' = out \o new
+             /\ sites' = Append(sites, RepSite(p, Len(new), 1, n))
+             /\ adict' = adict
+             /\ Done1(MEntry("PadTail", NmNone, n, <<b>>, ""))
+
 DropKeyword ==
     /\ Applying("DropKeyword")
     /\ LET cands == {t \in ToksOf(seed) : Len(t) >= 2 /\ AllOcc(out, t) # {}}
@@ -536,7 +579,7 @@ Applicable(k) ==
     ELSE TRUE
 
 \* structure-aware kinds are drawn more often than the byte-level ones (those also come in bulk from the harness)
-Weight(k) == IF k = "SetNumber" THEN 4 ELSE IF k \in {"NestDeep", "MakeCycle", "SetHex", "stop"} THEN 2 ELSE 1
+Weight(k) == IF k = "SetNumber" THEN 4 ELSE IF k \in {"NestDeep", "MakeCycle", "SetHex", "RepeatToken", "PadTail", "stop"} THEN 2 ELSE 1
 Lottery(S) == UNION {{<<k, i>> : i \in 1..Weight(k)} : k \in S}
 
 Pick ==
@@ -561,7 +604,7 @@ Reset ==
     /\ UNCHANGED <<pvars_rest, di, fin, ep, seed, lex, base, mk, judge>>
 
 ANext == AProduce \/ AFinish \/ Pick \/ FlipByte \/ Truncate \/ SpliceToken \/ SetNumber \/ SetHex \/ NestDeep
-         \/ MakeCycle \/ DropKeyword \/ SwapEntry \/ EmitCase \/ Reset
+         \/ MakeCycle \/ DropKeyword \/ SwapEntry \/ RepeatToken \/ PadTail \/ EmitCase \/ Reset
 
 ASpec == AInit /\ [][ANext]_allvars
 
@@ -592,5 +635,7 @@ AEmitInv ==
                                     rdok |-> judge.ok, rderr |-> judge.err, neutral |-> Neutral,
                                     bck |-> <<Len(base.bytes), Cks(base.bytes)>>,
                                     nests |-> [i \in 1..Len(SelectSeq(sites, LAMBDA x : x.form = "nest")) |->
-                                                 LET x == SelectSeq(sites, LAMBDA y : y.form = "nest")[i] IN <<x.s, x.e>> \o x.x]])>>)
+                                                 LET x == SelectSeq(sites, LAMBDA y : y.form = "nest")[i] IN <<x.s, x.e>> \o x.x],
+                                    reps |-> [i \in 1..Len(SelectSeq(sites, LAMBDA x : x.form = "rep")) |->
+                                                 LET x == SelectSeq(sites, LAMBDA y : y.form = "rep")[i] IN <<x.s, x.e>> \o x.x]])>>)
 =============================================================================
